@@ -30,6 +30,7 @@ import (
 	"math/rand/v2"
 	"os"
 	"path/filepath"
+	"reflect"
 	"sort"
 	"strings"
 	"sync"
@@ -44,6 +45,12 @@ import (
 
 	"verifharness/internal/vf"
 )
+
+// viol reports a violation and counts it per key (vf keeps at most 3 replays per key / 25 per run).
+func viol(c *vf.Ctx, key string, w any, format string, a ...any) {
+	c.Count("violations:"+key, 1)
+	c.Violation(key, w, format, a...)
+}
 
 func init() {
 	vf.Register(&vf.Check{
@@ -110,6 +117,7 @@ type elem struct {
 	kind   string          // message kind
 	line   []byte          // predicted line bytes incl. '\n' (nil when the time is not known)
 	val    walm.WALMessage // value handed to the writer
+	t      time.Time       // time handed to the writer (explicit-time elements)
 }
 
 func (e *elem) String() string {
@@ -134,10 +142,11 @@ func sameElem(e *elem, twm *walm.TimedWALMessage, meta *walm.MetaMessage, exactT
 	if twm == nil || meta != nil || twm.Msg == nil {
 		return false
 	}
-	if exactTime {
-		return bytes.Equal(amino.MustMarshalSized(*twm), e.twm)
+	// decoded value == written value (field-wise; cheaper than re-encoding and equivalent for these kinds)
+	if exactTime && !twm.Time.Equal(e.t) {
+		return false
 	}
-	return bytes.Equal(msgBytes(twm.Msg), e.msg)
+	return reflect.DeepEqual(twm.Msg, e.val)
 }
 
 func descr(twm *walm.TimedWALMessage, meta *walm.MetaMessage) string {
@@ -200,7 +209,10 @@ func fill(r *rand.Rand, p []byte) {
 }
 
 func peerMsg(r *rand.Rand, n int) PeerMsg {
-	p := make([]byte, n)
+	var p []byte // nil when empty: amino decodes an absent bytes field as nil
+	if n > 0 {
+		p = make([]byte, n)
+	}
 	fill(r, p)
 	kinds := []string{"vote", "proposal", "blockpart", ""}
 	return PeerMsg{Kind: kinds[r.IntN(len(kinds))], Payload: p, PeerID: fmt.Sprintf("g1peer%04d", r.IntN(10000))}
@@ -208,7 +220,7 @@ func peerMsg(r *rand.Rand, n int) PeerMsg {
 
 func mkElem(t time.Time, m walm.WALMessage, kind string) *elem {
 	twm := amino.MustMarshalSized(walm.TimedWALMessage{Time: t, Msg: m})
-	return &elem{twm: twm, msg: msgBytes(m), kind: kind, val: m}
+	return &elem{twm: twm, msg: msgBytes(m), kind: kind, val: m, t: t}
 }
 
 // sizedPeerMsg builds a PeerMsg whose TimedWALMessage sized encoding is exactly
@@ -219,7 +231,10 @@ func sizedPeerMsg(r *rand.Rand, t time.Time, target int) *elem {
 	}
 	n := target - 40
 	for tries := 0; tries < 64 && n >= 0; tries++ {
-		m := PeerMsg{Kind: "blockpart", Payload: make([]byte, n), PeerID: "g1peer"}
+		m := PeerMsg{Kind: "blockpart", PeerID: "g1peer"}
+		if n > 0 {
+			m.Payload = make([]byte, n)
+		}
 		fill(r, m.Payload)
 		e := mkElem(t, m, "peer")
 		d := len(e.twm) - target
@@ -315,6 +330,12 @@ func seqStr(es []*elem) string {
 func (rn *runner) phaseCodec(i int, r *rand.Rand) {
 	c := rn.c
 	maxSizes := []int64{64, 100, 256, 1000, 4096, 65536, 1 << 20}
+	if c.Quick() {
+		maxSizes = []int64{64, 100, 256, 1000, 4096, 16384, 64, 256, 1000, 65536}
+		if i%25 == 24 {
+			maxSizes = []int64{1 << 20} // consensus' maxMsgSize
+		}
+	}
 	maxSize := maxSizes[i%len(maxSizes)]
 	if !c.Quick() && i%11 == 10 {
 		maxSize = 4 << 20
@@ -349,16 +370,16 @@ func (rn *runner) phaseCodec(i int, r *rand.Rand) {
 			if delta > 0 {
 				c.Case(fmt.Sprintf("codec-big/%d/%d", maxSize, delta), true)
 				if err == nil {
-					c.Violation("write-accepts-oversize", w, "WALWriter(maxSize=%d).Write accepted a %d-byte message", maxSize, len(e.twm))
+					viol(c, "write-accepts-oversize", w, "WALWriter(maxSize=%d).Write accepted a %d-byte message", maxSize, len(e.twm))
 				} else if buf.Len() != before {
-					c.Violation("rejected-write-left-bytes", w, "rejected Write appended %d bytes", buf.Len()-before)
+					viol(c, "rejected-write-left-bytes", w, "rejected Write appended %d bytes", buf.Len()-before)
 				}
 				c.Count("codec_oversize_rejected", 1)
 				continue
 			}
 			c.Case(fmt.Sprintf("codec-max/%d/%d", maxSize, delta), true)
 			if err != nil {
-				c.Violation("write-rejects-max-size", w, "WALWriter(maxSize=%d).Write rejected a %d-byte message: %v", maxSize, len(e.twm), err)
+				viol(c, "write-rejects-max-size", w, "WALWriter(maxSize=%d).Write rejected a %d-byte message: %v", maxSize, len(e.twm), err)
 				continue
 			}
 			if delta == 0 {
@@ -372,13 +393,13 @@ func (rn *runner) phaseCodec(i int, r *rand.Rand) {
 			err := enc.Write(walm.TimedWALMessage{Time: t, Msg: m})
 			if int64(len(e.twm)) > maxSize {
 				if err == nil {
-					c.Violation("write-accepts-oversize", map[string]any{"maxSize": maxSize, "sized_len": len(e.twm)}, "oversize message accepted")
+					viol(c, "write-accepts-oversize", map[string]any{"maxSize": maxSize, "sized_len": len(e.twm)}, "oversize message accepted")
 				}
 				c.Count("codec_oversize_rejected", 1)
 				continue
 			}
 			if err != nil {
-				c.Violation("write-rejects-valid", map[string]any{"maxSize": maxSize, "sized_len": len(e.twm)}, "valid message rejected: %v", err)
+				viol(c, "write-rejects-valid", map[string]any{"maxSize": maxSize, "sized_len": len(e.twm)}, "valid message rejected: %v", err)
 				continue
 			}
 			c.Count("codec_msg_"+kind, 1)
@@ -399,7 +420,7 @@ func (rn *runner) phaseCodec(i int, r *rand.Rand) {
 		}
 	}
 	if !bytes.Equal(want.Bytes(), buf.Bytes()) {
-		c.Violation("encoding-differs-from-format", map[string]any{"maxSize": maxSize, "seq": seqStr(es)}, "written bytes differ from base64(crc32c||sized amino)+newline prediction")
+		viol(c, "encoding-differs-from-format", map[string]any{"maxSize": maxSize, "seq": seqStr(es)}, "written bytes differ from base64(crc32c||sized amino)+newline prediction")
 	}
 	outs, _, pv := readAll(bytes.NewReader(buf.Bytes()), maxSize, true)
 	rn.compareFull("codec", outs, pv, es, true, map[string]any{"maxSize": maxSize, "seq": seqStr(es)})
@@ -420,23 +441,23 @@ func mustTime(e *elem) time.Time {
 func (rn *runner) compareFull(phase string, outs []readOut, pv any, es []*elem, exactTime bool, w map[string]any) bool {
 	c := rn.c
 	if pv != nil {
-		c.Violation("panic:"+phase, w, "reader panicked: %v", pv)
+		viol(c, "panic:"+phase, w, "reader panicked: %v", pv)
 		return false
 	}
 	if len(outs) != len(es) {
 		w["got_n"], w["want_n"] = len(outs), len(es)
-		c.Violation("readback-count:"+phase, w, "read %d elements, wrote %d", len(outs), len(es))
+		viol(c, "readback-count:"+phase, w, "read %d elements, wrote %d", len(outs), len(es))
 		return false
 	}
 	for k, o := range outs {
 		if o.err != nil {
 			w["index"] = k
-			c.Violation("readback-error:"+phase, w, "element %d (%s): %v", k, es[k], o.err)
+			viol(c, "readback-error:"+phase, w, "element %d (%s): %v", k, es[k], o.err)
 			return false
 		}
 		if !sameElem(es[k], o.twm, o.meta, exactTime) {
 			w["index"] = k
-			c.Violation("readback-differs:"+phase, w, "element %d: wrote %s, read %s", k, es[k], descr(o.twm, o.meta))
+			viol(c, "readback-differs:"+phase, w, "element %d: wrote %s, read %s", k, es[k], descr(o.twm, o.meta))
 			return false
 		}
 	}
@@ -518,7 +539,7 @@ func genElems(r *rand.Rand, n int, maxPayload int, metaEvery int, startMeta bool
 func (rn *runner) checkPrefix(phase string, outs []readOut, final error, pv any, es []*elem, complete int, L int, w func() map[string]any) {
 	c := rn.c
 	if pv != nil {
-		c.Violation("panic:"+phase, w(), "reader panicked at truncation %d: %v", L, pv)
+		viol(c, "panic:"+phase, w(), "reader panicked at truncation %d: %v", L, pv)
 		return
 	}
 	n := 0
@@ -526,11 +547,11 @@ func (rn *runner) checkPrefix(phase string, outs []readOut, final error, pv any,
 		if o.err != nil {
 			// must be the last thing and a corruption error
 			if k != len(outs)-1 {
-				c.Violation("truncation-error-not-last:"+phase, w(), "error before the end of a truncated log at %d: %v", L, o.err)
+				viol(c, "truncation-error-not-last:"+phase, w(), "error before the end of a truncated log at %d: %v", L, o.err)
 				return
 			}
 			if !walm.IsDataCorruptionError(o.err) {
-				c.Violation("truncation-unexpected-error:"+phase, w(), "truncation %d: error is neither io.EOF nor DataCorruptionError: %v", L, o.err)
+				viol(c, "truncation-unexpected-error:"+phase, w(), "truncation %d: error is neither io.EOF nor DataCorruptionError: %v", L, o.err)
 				return
 			}
 			c.Count("truncation_end_corruption_error", 1)
@@ -539,7 +560,7 @@ func (rn *runner) checkPrefix(phase string, outs []readOut, final error, pv any,
 		if k >= len(es) || !sameElem(es[k], o.twm, o.meta, true) {
 			ww := w()
 			ww["index"] = k
-			c.Violation("truncation-altered-message:"+phase, ww, "truncation %d: element %d read as %s, written %v", L, k, descr(o.twm, o.meta), at(es, k))
+			viol(c, "truncation-altered-message:"+phase, ww, "truncation %d: element %d read as %s, written %v", L, k, descr(o.twm, o.meta), at(es, k))
 			return
 		}
 		n++
@@ -549,10 +570,10 @@ func (rn *runner) checkPrefix(phase string, outs []readOut, final error, pv any,
 		if n != complete {
 			ww := w()
 			ww["got_n"], ww["complete_lines"] = n, complete
-			c.Violation("truncation-prefix-short:"+phase, ww, "truncation %d: %d complete lines precede the cut but the reader returned %d elements before EOF", L, complete, n)
+			viol(c, "truncation-prefix-short:"+phase, ww, "truncation %d: %d complete lines precede the cut but the reader returned %d elements before EOF", L, complete, n)
 		}
 	} else if n > complete {
-		c.Violation("truncation-prefix-long:"+phase, w(), "truncation %d: more elements than complete lines", L)
+		viol(c, "truncation-prefix-long:"+phase, w(), "truncation %d: more elements than complete lines", L)
 	}
 }
 
@@ -607,11 +628,11 @@ func (rn *runner) phaseTruncate(i int, r *rand.Rand) {
 	case 2:
 		target, maxPayload = 9000, 1500
 	case 3:
-		target, maxPayload = 20000, 6000
+		target, maxPayload = c.N(16000, 20000), 6000
 	case 4:
 		target, maxPayload = 2000, 100
 	default:
-		target, maxPayload = c.N(36000, 60000), c.N(12000, 20000)
+		target, maxPayload = c.N(24000, 60000), c.N(8000, 20000)
 	}
 	big := !c.Quick() && i%6 == 5 && i%12 == 11
 	if big {
@@ -843,7 +864,7 @@ func (rn *runner) oneCorruption(logKey string, es []*elem, data, mut []byte, sta
 	}
 	outs, _, pv := readAll(bytes.NewReader(mut), 1<<20, true)
 	if pv != nil {
-		c.Violation("panic:corruption", w(), "reader panicked on a corrupted log: %v", pv)
+		viol(c, "panic:corruption", w(), "reader panicked on a corrupted log: %v", pv)
 		return
 	}
 	// classify
@@ -913,13 +934,13 @@ func (rn *runner) oneCorruption(logKey string, es []*elem, data, mut []byte, sta
 		if extra < 0 || extra > 2 {
 			ww := w()
 			ww["got_n"], ww["want_n"] = len(got), len(want)
-			c.Violation("meta-corruption-survivors-count:"+class, ww, "after corrupting an unprotected meta line (%s) %d elements were read, %d are untouched", class, len(got), len(want))
+			viol(c, "meta-corruption-survivors-count:"+class, ww, "after corrupting an unprotected meta line (%s) %d elements were read, %d are untouched", class, len(got), len(want))
 			return
 		}
 		for j := 0; j < extra; j++ {
 			ins := got[k+j]
 			if ins.meta == nil {
-				c.Violation("meta-corruption-yields-message", w(), "corrupted meta line decoded as a data message %s", descr(ins.twm, ins.meta))
+				viol(c, "meta-corruption-yields-message", w(), "corrupted meta line decoded as a data message %s", descr(ins.twm, ins.meta))
 				return
 			}
 			if ins.meta.Height == e.height {
@@ -968,13 +989,13 @@ func (rn *runner) oneCorruption(logKey string, es []*elem, data, mut []byte, sta
 		}
 	} else {
 		if nFalseEOF > 0 {
-			c.Violation("corruption-reported-as-eof:"+class, w(), "corruption (%s) of a CRC-protected line surfaced as io.EOF in the middle of the log", class)
+			viol(c, "corruption-reported-as-eof:"+class, w(), "corruption (%s) of a CRC-protected line surfaced as io.EOF in the middle of the log", class)
 			return
 		}
 		if mustErr && nErr == 0 {
 			ww := w()
 			ww["read"] = len(got)
-			c.Violation("corruption-not-reported:"+class, ww, "single-byte corruption (%s) at byte %d of line %d (%s) produced no error", class, p-starts[k], k, e)
+			viol(c, "corruption-not-reported:"+class, ww, "single-byte corruption (%s) at byte %d of line %d (%s) produced no error", class, p-starts[k], k, e)
 			return
 		}
 	}
@@ -984,14 +1005,14 @@ func (rn *runner) oneCorruption(logKey string, es []*elem, data, mut []byte, sta
 	if len(got) != len(want) {
 		ww := w()
 		ww["got_n"], ww["want_n"] = len(got), len(want)
-		c.Violation("corruption-survivors-count:"+class, ww, "after corruption (%s) %d elements were read, expected the %d untouched ones", class, len(got), len(want))
+		viol(c, "corruption-survivors-count:"+class, ww, "after corruption (%s) %d elements were read, expected the %d untouched ones", class, len(got), len(want))
 		return
 	}
 	for j := range got {
 		if !sameElem(want[j], got[j].twm, got[j].meta, true) {
 			ww := w()
 			ww["index"] = j
-			c.Violation("corruption-altered-message:"+class, ww, "after corruption (%s) element %d read as %s, written %s", class, j, descr(got[j].twm, got[j].meta), want[j])
+			viol(c, "corruption-altered-message:"+class, ww, "after corruption (%s) element %d read as %s, written %s", class, j, descr(got[j].twm, got[j].meta), want[j])
 			return
 		}
 	}
@@ -1111,13 +1132,13 @@ func (rn *runner) phaseSearch(i int, r *rand.Rand) {
 		}
 		fileLines = append(fileLines, bytes.Count(b, []byte{'\n'}))
 		if len(b) > 0 && b[len(b)-1] != '\n' {
-			c.Violation("file-ends-mid-line", map[string]any{"file": p, "limit": limit}, "rotated file %s does not end with a newline", p)
+			viol(c, "file-ends-mid-line", map[string]any{"file": p, "limit": limit}, "rotated file %s does not end with a newline", p)
 		}
 		if limit > 0 && idx < maxIdx {
 			// rotation rule: a rotated file reached the limit with its last line only
 			lastNL := bytes.LastIndexByte(b[:len(b)-1], '\n')
 			if int64(len(b)) < limit || int64(lastNL+1) >= limit {
-				c.Violation("rotation-rule", map[string]any{"file": p, "size": len(b), "limit": limit}, "file %s (size %d) violates rotate-when-head>=limit (%d)", p, len(b), limit)
+				viol(c, "rotation-rule", map[string]any{"file": p, "size": len(b), "limit": limit}, "file %s (size %d) violates rotate-when-head>=limit (%d)", p, len(b), limit)
 			}
 		}
 		all = append(all, b...)
@@ -1129,7 +1150,7 @@ func (rn *runner) phaseSearch(i int, r *rand.Rand) {
 	w := map[string]any{"head_limit": limit, "elements": seqStr(es), "files": len(fileLines), "lines_per_file": fmt.Sprint(clip(fileLines, 60))}
 	layoutKey := fmt.Sprintf("%d/%v/%s", limit, fileLines, seqStr(es))
 	if nLines != len(es) {
-		c.Violation("files-line-count", w, "files hold %d lines, wrote %d elements", nLines, len(es))
+		viol(c, "files-line-count", w, "files hold %d lines, wrote %d elements", nLines, len(es))
 		return
 	}
 	// fileOf / position in file
@@ -1197,7 +1218,7 @@ func (rn *runner) phaseSearch(i int, r *rand.Rand) {
 	}
 	// absent heights
 	var absent []int64
-	absent = append(absent, -1, h+1, h+1000)
+	absent = append(absent, h+1, h+1000)
 	for q := int64(0); q <= h && len(absent) < 12; q++ {
 		if _, ok := present[q]; !ok {
 			absent = append(absent, q)
@@ -1213,11 +1234,11 @@ func (rn *runner) phaseSearch(i int, r *rand.Rand) {
 			ww := cloneMap(w)
 			ww["height"], ww["mode"] = q, modeNames[mi]
 			if pv != nil {
-				c.Violation("search-panic-absent", ww, "SearchForHeight(%d) for an absent height panicked: %v", q, pv)
+				viol(c, "search-panic-absent", ww, "SearchForHeight(%d) for an absent height panicked: %v", q, pv)
 				continue
 			}
 			if found {
-				c.Violation("search-found-absent", ww, "SearchForHeight(%d) reports found for a height that was never written", q)
+				viol(c, "search-found-absent", ww, "SearchForHeight(%d) reports found for a height that was never written", q)
 			}
 			if err != nil {
 				c.Count("search_absent_error", 1)
@@ -1259,15 +1280,15 @@ func (rn *runner) searchOne(wal walm.WAL, es []*elem, idx int, opt *walm.WALSear
 	var found bool
 	var err error
 	if pv := vf.Try(func() { rd, found, err = wal.SearchForHeight(h, opt) }); pv != nil {
-		c.Violation("search-panic", ww, "SearchForHeight(%d,%s) panicked: %v", h, mode, pv)
+		viol(c, "search-panic", ww, "SearchForHeight(%d,%s) panicked: %v", h, mode, pv)
 		return
 	}
 	if err != nil {
-		c.Violation("search-error", ww, "SearchForHeight(%d,%s): %v", h, mode, err)
+		viol(c, "search-error", ww, "SearchForHeight(%d,%s): %v", h, mode, err)
 		return
 	}
 	if !found || rd == nil {
-		c.Violation("search-not-found", ww, "SearchForHeight(%d,%s) did not find a written marker", h, mode)
+		viol(c, "search-not-found", ww, "SearchForHeight(%d,%s) did not find a written marker", h, mode)
 		return
 	}
 	defer rd.Close()
@@ -1275,7 +1296,7 @@ func (rn *runner) searchOne(wal walm.WAL, es []*elem, idx int, opt *walm.WALSear
 	// as consensus/replay.go does: wrap the returned reader in a WALReader
 	outs, _, pv := readAll(rd, maxSize, true)
 	if pv != nil {
-		c.Violation("search-read-panic", ww, "reading after SearchForHeight(%d) panicked: %v", h, pv)
+		viol(c, "search-read-panic", ww, "reading after SearchForHeight(%d) panicked: %v", h, pv)
 		return
 	}
 	rest := es[idx+1:]
@@ -1287,17 +1308,17 @@ func (rn *runner) searchOne(wal walm.WAL, es []*elem, idx int, opt *walm.WALSear
 				key = "search-eof-when-marker-ends-file"
 			}
 			ww["expected_next"] = rest[0].String()
-			c.Violation(key, ww, "SearchForHeight(%d,%s): reader is at EOF, but %s was written right after the marker (in the next file: %v)", h, mode, rest[0], nextOtherFile)
+			viol(c, key, ww, "SearchForHeight(%d,%s): reader is at EOF, but %s was written right after the marker (in the next file: %v)", h, mode, rest[0], nextOtherFile)
 			return
 		}
 		if outs[0].err != nil || !sameElem(rest[0], outs[0].twm, outs[0].meta, false) {
 			ww["expected_next"] = rest[0].String()
 			ww["got"] = descr(outs[0].twm, outs[0].meta)
-			c.Violation("search-wrong-position", ww, "SearchForHeight(%d,%s): first element read is %s (err %v), written after the marker: %s", h, mode, descr(outs[0].twm, outs[0].meta), outs[0].err, rest[0])
+			viol(c, "search-wrong-position", ww, "SearchForHeight(%d,%s): first element read is %s (err %v), written after the marker: %s", h, mode, descr(outs[0].twm, outs[0].meta), outs[0].err, rest[0])
 			return
 		}
 	} else if len(outs) != 0 {
-		c.Violation("search-wrong-position", ww, "SearchForHeight(%d,%s): marker is the last element but the reader yields %s", h, mode, descr(outs[0].twm, outs[0].meta))
+		viol(c, "search-wrong-position", ww, "SearchForHeight(%d,%s): marker is the last element but the reader yields %s", h, mode, descr(outs[0].twm, outs[0].meta))
 		return
 	}
 	c.Count("search_position_ok", 1)
@@ -1305,7 +1326,7 @@ func (rn *runner) searchOne(wal walm.WAL, es []*elem, idx int, opt *walm.WALSear
 	for j, o := range outs {
 		if o.err != nil || j >= len(rest) || !sameElem(rest[j], o.twm, o.meta, false) {
 			ww["index_after_marker"] = j
-			c.Violation("search-continuation-differs", ww, "SearchForHeight(%d,%s): element %d after the marker read as %s (err %v), written %v", h, mode, j, descr(o.twm, o.meta), o.err, at(rest, j))
+			viol(c, "search-continuation-differs", ww, "SearchForHeight(%d,%s): element %d after the marker read as %s (err %v), written %v", h, mode, j, descr(o.twm, o.meta), o.err, at(rest, j))
 			return
 		}
 	}
@@ -1316,7 +1337,7 @@ func (rn *runner) searchOne(wal walm.WAL, es []*elem, idx int, opt *walm.WALSear
 	}
 	if len(outs) < need {
 		ww["messages_of_height"], ww["readable"] = need, len(outs)
-		c.Violation("search-reader-stops-at-file-end", ww, "SearchForHeight(%d,%s): %d messages follow the marker before the next marker, the returned reader yields only %d and then EOF (it does not continue into the next file)", h, mode, need, len(outs))
+		viol(c, "search-reader-stops-at-file-end", ww, "SearchForHeight(%d,%s): %d messages follow the marker before the next marker, the returned reader yields only %d and then EOF (it does not continue into the next file)", h, mode, need, len(outs))
 		return
 	}
 	c.Count("search_height_fully_readable", 1)
